@@ -151,6 +151,40 @@ AREAS["C04"] = {
                   "initialisation is covered by the harness only (a kill between root creation and admin creation leaves an instance without the default admin: noted, not a violation of the statement)",
 }
 
+AREAS["C12"] = {'area': 'c12',
+ 'id': 12,
+ 'coq': ['Base', 'Wire', 'Properties/C12.v'],
+ 'rule': 'seeded generator, two streams. Values: points (strings from a word list, printable ASCII, boundary runes, 126-129 byte strings, invalid '
+         "UTF-8 in the 'maybe-unrepresentable' fifth; value bit patterns incl. -0, NaNs, subnormals, float32 rounding boundaries; times at the ends "
+         'of the Timestamp range, of the int64 ns range, outside the range; tombstones 0, +-1, int32 min/max, beyond int32; data '
+         'nil/empty/0x00/126-130 bytes) alone, in nodes, node lists, NodeRequest / NodesRequest replies (with and without node / error) and serial '
+         "packets, encoded by the repo's encoders and decoded back. Bytes: raw wire messages built from the schemas of all nine message types with "
+         'good fields, padded varints, unknown fields, known fields with the wrong wire type, nested groups, Timestamp edge values and (at 0/3/15 % '
+         'per field) one of twelve malformations; mutations of valid encodings (bit flip, truncate, delete, insert, duplicate, byte set, splice); '
+         'random bytes; high-rate payloads of 40-85 bytes; subject strings with 0-6 dots; each byte string goes through all six protobuf decoders '
+         '(and the high-rate decoder when it is at most 160 bytes long). A value case is non-trivial when it holds at least one point, a byte / '
+         'subject case when the input has at least 2 bytes; distinct by SHA-1 of the inputs',
+ 'trusted': ['model of the codec functions of data/point.go, data/node.go, client/msg.go and of the parts of protobuf-go 1.27.1 (proto3 wire format, '
+             "UTF-8 check, field order, zero omission) and ptypes.Timestamp they use: coq/theories/Wire/Model.v (hand-written, tied by this run's "
+             'correspondence on encoder bytes, decoder outcome class and decoded values)',
+             'pb.NodeRequest / pb.NodesRequest, which the repo only decodes, are built in the harness through protobuf reflection on the registered '
+             'generated types'],
+ 'level_text': 'proof: C12_point_roundtrip, C12_node_roundtrip, C12_nodes_roundtrip, C12_node_request_roundtrip (every field, unbounded sizes), '
+               'C12_varint_roundtrip and C12_total (no decoder or subject parser reaches Panic for any byte string) are Coq theorems about the '
+               'executable model; the model is run against the real encoders and decoders on >20000 generated values and byte strings per run and '
+               'must produce the same bytes, the same outcome class and the same decoded values',
+ 'level_note': "trusted: Coq kernel, extraction, OCaml driver, the Go harness; modelled not verified: protobuf-go's parser (agreement is checked per "
+               'run, not proved), float32<->float64 conversion of the serial format (C12_serial_roundtrip_partial assumes the narrowed value is a '
+               '32-bit pattern); Go strings / slices longer than 2^31 bytes are outside the statements',
+ 'assumptions': ['times are compared as the instant in ns since the Unix epoch (location and monotonic reading of time.Time are not part of the wire '
+                 'format); nil and empty Data / point lists are the same value',
+                 'variable-length fields are shorter than 2^31 bytes and an encoded node inside a list or reply is shorter than 2^64 bytes',
+                 'DecodeSerialHrPayload substitutes time.Now() for a zero start time: the harness takes the time of the first returned sample as '
+                 'that instant; inputs longer than 160 bytes are not handed to this decoder',
+                 'float64 / float32 values are bit patterns; the NaN quieting of the hardware float32<->float64 conversions (amd64, arm64) is part '
+                 'of the model',
+                 'nested groups are matched to the depth the generator produces (5); protobuf-go skips groups recursively without a depth limit']}
+
 WIP = "not yet built in this round; the design (DESIGN.md section 6) claims it and the check is being added"
 NOT_CLAIMED = {pid: WIP for pid in ["C%02d" % i for i in range(1, 21)] if pid not in AREAS}
 HOOK_COMMITS = ["6f869d9", "e935e32"]
